@@ -148,6 +148,20 @@ func NewWorld() *World {
 
 var mkMu sync.Mutex
 
+// NewWorldBarrier returns a world constructor for kapp.RunSeqs that lets no sequence start before all
+// `workers` worlds exist: building an app touches process-global registries (codecs, sdk config) that
+// running keepers read.
+func NewWorldBarrier(workers int) func() *World {
+	var wg sync.WaitGroup
+	wg.Add(workers)
+	return func() *World {
+		w := NewWorld()
+		wg.Done()
+		wg.Wait()
+		return w
+	}
+}
+
 func (w *World) Keeper() cdpkeeper.Keeper { return w.App.GetCDPKeeper() }
 
 func (w *World) Addr(id int) sdk.AccAddress {
